@@ -153,6 +153,24 @@ def run(spec, ctx):
                 ctx.case("plid%s|%r" % (f, desc), bool(want) or v < 0x10000000,
                          sample={"argv": ["--plid", f], "matches": len(want)} if i == 0 and f == "%08X" % v else None)
                 expect_list(["--plid", f] + hexopt(rng), want, "plid", "platform log id %#x" % v)
+        # ids spelled so that a lenient normaliser (replace() for the prefix, int(s, 16), strip()) would read them as the id of
+        # a log in the directory: by the stated rule they have the wrong length or do not occur - nothing may be displayed
+        e = rng.choice(ents)
+        for opt, h in (("--plid", "%08X" % e.pel.plid), ("-i", "%08X" % e.pel.eid)):
+            k = rng.randrange(1, 8)
+            lenient = [h[:k] + "0x" + h[k:], "0x0x" + h, h[:4] + "_" + h[4:], " " + h, h + " ", "+" + h, "0x+" + h, h + "h",
+                       "\t" + h, "0x_" + h, "00x" + h, h + "\n"]
+            for f in rng.sample(lenient, 2):
+                ctx.count("lookups.leniently_readable_ids")
+                ctx.case("lenient%s%r|%r" % (opt, f, desc), True)
+                rc, out = cli([opt, f], "lenient-id")
+                if out is None:
+                    continue
+                shown = [x for x in ents if ("%08X" % x.pel.eid) in out.upper()]
+                if shown:
+                    ctx.violation("C10/lenient-id-matched/" + opt.lstrip("-"),
+                                  "peltool %s %r displayed %s although %r is not the id of any log (ids are eight hex digits with an "
+                                  "optional 0x prefix)" % (opt, f, [hex(x.pel.eid) for x in shown][:4], f))
         # --bmc-id
         for e in ents + [None, None]:
             n = e.pel.bmcid if e else rng.randrange(1 << 32)
